@@ -80,7 +80,9 @@ def run(prop, tier, *, tags=None, norm=False, opts=None, specs=None, extra=None)
     nontrivial = 0
     qp = sum(r["quotient_pairs"] for r in res)
     qm = [m for r in res for m in r["quotient_mismatch"]]
-    if qm:
+    if qm and not any(r["nviol"] or r["other"] for r in res):
+        # on code that satisfies the oracles, merged states must have identical futures; a mismatch then means the
+        # harness abstraction is unsound (with oracle violations present, differing futures are a symptom, not a cause)
         import sys
         print("FATAL: the canonical-state quotient merged states with different futures (harness abstraction unsound): " + qm[0], file=sys.stderr)
         sys.exit(2)
@@ -109,6 +111,7 @@ def run(prop, tier, *, tags=None, norm=False, opts=None, specs=None, extra=None)
         "plans": len(specs), "plans_with_more_than_2_states": nontrivial,
         "pop_orders_enumerated": tot["pop_orders"],
         "merged_concrete_state_pairs_with_futures_compared": qp,
+        "merged_pairs_with_different_futures": len(qm),
         "plan_build_orders": sorted({r["opts"].get("order", "topo") for r in res}),
         "events_by_kind": kinds, "max_bfs_depth": maxd,
         "fixpoint_reached_for_every_plan": not capped, "exhaustive": not capped,
